@@ -100,7 +100,10 @@ def audit(path, root):
 
 TREES = ["none_missing", "some_missing", "unreadable_file", "invalid_utf8", "empty_source_dir", "missing_source_dir", "bad_config",
          "big_tree"]
-LOCKS = ["absent", "valid", "corrupt", "empty"]
+LOCKS = ["absent", "valid", "corrupt", "empty", "absent+stale_scratch", "valid+stale_scratch"]
+# how check mode is asked for (drawn per point, not a product dimension): every spelling the command line accepts or
+# rejects - a rejected command line must not touch anything either
+ARGS = ["-c CFG --check", "--check -c CFG", "--config CFG --check", "-c CFG --check --check", "--check --config=CFG", "-cCFG --check"]
 CACHE = [None, True, False]
 STRUCT = [False, True]
 ENDING = ["normal", "sigterm", "sigint"]
@@ -152,6 +155,11 @@ def work(job):
             open(lockp, "w").write("next_reference_id: {oops\n")
         elif lock == "empty":
             open(lockp, "w").write("")
+        elif lock.endswith("+stale_scratch"):
+            if lock.startswith("valid"):
+                open(lockp, "w").write(core.lock_text(50))
+            # left behind by an edit run that was killed between writing the lock's scratch copy and renaming it
+            open(lockp + ".tmp", "w").write(rnd.choice([core.lock_text(70), core.lock_text(3), core.LOCK_HEADER, ""]))
         # cwd is a separate monitored directory
         cwd = os.path.join(box.root, "cwd")
         os.makedirs(cwd)
@@ -166,7 +174,10 @@ def work(job):
             tmpdir = os.path.join(box.root, "no", "such", "tmpdir")
         elif tmpmode == "missing_inside_project":
             tmpdir = os.path.join(box.proj, "target", "tmp")
-        r = core.run_breadlog(built, box, cfg, check=True, cwd=cwd, strace=True, rules=rules, timeout=120, tmpdir=tmpdir)
+        form = core.rng_for("c04args", seed, i).choice(ARGS)
+        argv = [a.replace("CFG", cfg) for a in form.split(" ")]
+        r = core.run_breadlog(built, box, cfg, check=True, cwd=cwd, strace=True, rules=rules, timeout=120, tmpdir=tmpdir,
+                              argv_override=argv)
         after = core.snapshot(box.root)
         v, nsys, seen = audit(r.strace, box.root) if r.strace and os.path.exists(r.strace) else ([("no-strace-log", "")], 0, {})
         excerpt = []
@@ -180,13 +191,15 @@ def work(job):
         res["inconclusive"]["strace produced no syscalls"] = 1
         return res
     diff = core.snap_diff(before, after, meta=True)
-    res["counters"].update({"syscalls_inspected": nsys, "runs": 1, "ending_" + ending: 1,
+    res["counters"].update({"syscalls_inspected": nsys, "runs": 1, "ending_" + ending: 1, "args_form[%s]" % form: 1,
                             "exit_%s" % r.ended(): 1})
     for k in ("openat", "read", "write", "statx", "getdents64", "close"):
         if k in seen:
             res["counters"]["sys_" + k] = seen[k]
     res["nontrivial"].append("|".join(str(x) for x in point))
     sigbase = "%s|lock=%s|cache=%s|%s|%s|tmpdir=%s" % (tree, lock, cache, "structured" if structured else "unstructured", ending, tmpmode)
+    if form != ARGS[0]:
+        sigbase += "|args=" + form
     for name, detail in v:
         res["violations"].append({"signature": "C04.mutating-syscall:%s|%s" % (name, sigbase), "detail": {"syscall": name, "args": detail},
                                   "case": {"point": list(point), "seed": seed, "i": i}})
@@ -241,8 +254,8 @@ def main(tier):
     ck.extra["product_size"] = len(product)
     ck.extra["points_run"] = len(points)
     ck.rule = ("configuration product tree{none missing, some missing, unreadable/special files, invalid UTF-8, empty / missing source "
-               "dir, bad config, 12-file tree} x lock{absent,valid,corrupt,empty} x use_cache{omitted,true,false} x structured x "
-               "ending{normal, SIGTERM, SIGINT at a seeded operation} x TMPDIR{exists, missing, missing inside the project} (all %d points in both tiers, exhaustive; thorough x4 with fresh "
+               "dir, bad config, 12-file tree} x lock{absent,valid,corrupt,empty, absent/valid + a stale Breadlog.lock.tmp} x use_cache{omitted,true,false} x structured x "
+               "ending{normal, SIGTERM, SIGINT at a seeded operation} x TMPDIR{exists, missing, missing inside the project}, command-line spelling of check mode cycled over 6 forms incl. a repeated --check (all %d points in both tiers, exhaustive; thorough x4 with fresh "
                "signal positions) + corpora; every --check process runs under strace -f -y; every successful kernel call "
                "that can mutate the filesystem is a violation, as is any difference (content, mode, size, mtime, inode, path set) "
                "between the before/after snapshots of project, TMPDIR, cwd and an outside directory; distinct_nontrivial = distinct points"
